@@ -251,16 +251,29 @@ class Exec:
         if n < len(self.prefix):
             d = self.prefix[n]
         else:
-            rt = self.check(cond)
-            if rt == z3.unsat:
-                d = False
-            else:
+            if tag in ('oob', 'oob-gep', 'guard', 'ub-shift', 'div0', 'vector-realloc', 'string-too-long'):
+                # safety checks almost always hold: ask for the violating side first (one query when it is infeasible)
                 rf = self.check(z3.Not(cond))
                 if rf == z3.unsat:
                     d = True
                 else:
-                    d = True
-                    self.forks.append(self.decisions + [False])
+                    rt = self.check(cond)
+                    if rt == z3.unsat:
+                        d = False
+                    else:
+                        d = True
+                        self.forks.append(self.decisions + [False])
+            else:
+                rt = self.check(cond)
+                if rt == z3.unsat:
+                    d = False
+                else:
+                    rf = self.check(z3.Not(cond))
+                    if rf == z3.unsat:
+                        d = True
+                    else:
+                        d = True
+                        self.forks.append(self.decisions + [False])
         self.decisions.append(d)
         self.stats.decisions += 1
         self.assume(cond if d else z3.Not(cond))
